@@ -101,12 +101,18 @@ def limit_mem(gb):
 
 def run_cmd(cmd, timeout, mem_gb=12, cwd=None):
     t0 = time.time()
+    # own process group, so that a timeout also kills the SMT solver cbmc spawned
+    p = subprocess.Popen(cmd, stdout=subprocess.PIPE, stderr=subprocess.PIPE, preexec_fn=limit_mem(mem_gb), cwd=cwd, start_new_session=True)
     try:
-        p = subprocess.run(cmd, stdout=subprocess.PIPE, stderr=subprocess.PIPE, timeout=timeout,
-                           preexec_fn=limit_mem(mem_gb), cwd=cwd)
-        return p.returncode, p.stdout.decode('utf-8', 'replace'), p.stderr.decode('utf-8', 'replace'), time.time() - t0
-    except subprocess.TimeoutExpired as e:
-        return -999, (e.stdout or b'').decode('utf-8', 'replace'), 'TIMEOUT', time.time() - t0
+        out, err = p.communicate(timeout=timeout)
+        return p.returncode, out.decode('utf-8', 'replace'), err.decode('utf-8', 'replace'), time.time() - t0
+    except subprocess.TimeoutExpired:
+        try:
+            os.killpg(p.pid, 9)
+        except Exception:
+            p.kill()
+        out, err = p.communicate()
+        return -999, (out or b'').decode('utf-8', 'replace'), 'TIMEOUT', time.time() - t0
 
 
 def parse_cbmc_json(out):
